@@ -77,6 +77,14 @@ def _trajectory(cfg, nsteps, *, split=None, scheduler=None, base_seed=0, exec_or
         for c in chunks:
             done += c
             app.propagateTo(datetimeToJulianDate(start + timedelta(seconds=done * step)))
+        # the stored trajectory: TruthEphemeris rows keyed by (agent, "db", timestamp)
+        import sqlite3
+
+        con = sqlite3.connect(b.db_path)
+        for aid, iso, *y in con.execute("select t.agent_id, e.timestampISO, t.pos_x_km, t.pos_y_km, t.pos_z_km, t.vel_x_km_p_sec, t.vel_y_km_p_sec, t.vel_z_km_p_sec "
+                                        "from truth_ephemerides t join epochs e on e.julian_date = t.julian_date").fetchall():
+            traj[(int(aid), "db", iso)] = np.asarray(y, dtype=float).tobytes()
+        con.close()
     except Exception as e:  # noqa: BLE001
         import traceback
 
@@ -149,7 +157,11 @@ def make_pair(net, variant, rng):
     elif variant == "split_calls":
         if n >= 2:
             k = rng.randrange(1, n)
-            kb["split"] = [k, n - k]
+            kb["split"] = [k, n - k] if n < 4 or rng.random() < 0.5 else [k, 1, n - k - 1] if n - k - 1 > 0 else [k, n - k]
+            # same output cadence in both runs, in two thirds of the pairs coarser than the physics step: the split then falls
+            # between two output epochs
+            m = rng.choice([1, 2, 3])
+            a["time"]["output_step_sec"] = b["time"]["output_step_sec"] = net["step"] * m
     elif variant == "schedule_reverse":
         kb["scheduler"] = shimray.make_sched_script(None, default="reverse")
     elif variant == "schedule_random":
@@ -264,15 +276,26 @@ def eval_pair(ctx, net, variant, rng_seed):
             return False
         ctx.check(False, "run-raised-" + variant, f"variant '{variant}' run raised: {ea or eb}", wit, mon="truth_bitwise")
         return False
-    common = sorted(set(ta) & set(tb))
+    common = sorted(set(ta) & set(tb), key=lambda k_: (k_[0], len(k_), str(k_[1:])))
     if lj:
         ctx.count("late_join_states_compared", sum(1 for k in common if k[0] == lj["id"]))
     ctx.mon("pairs_compared")
     bad = [k for k in common if ta[k] != tb[k]]
-    steps_a = max((k[1] for k in ta), default=0)
+    steps_a = max((k[1] for k in ta if len(k) == 2), default=0)
     ctx.check(not bad, f"truth-differs-{variant}", f"truth state differs between the paired runs ('{variant}', {net.get('truth_model', 'two_body')}) first at (agent, step) = {bad[0] if bad else None}; "
               f"{len(bad)}/{len(common)} (agent, step) samples differ", wit, mon="truth_bitwise")
     ctx.count("states_compared", len(common))
+    # stored rows: same output cadence in both runs (every variant but 'output_cadence') => the same set of stored epochs for every
+    # agent that lives through the same steps in both runs
+    same_agents = ("truth_only", "ukf_params", "policy", "sensor_noise", "seed", "split_calls", "schedule_reverse", "schedule_random", "exec_order_reverse",
+                   "exec_order_random", "filter_model", "maneuver_detection")
+    if variant in same_agents and not bad:
+        steps_of = lambda t, a_: {k[1] for k in t if k[0] == a_ and len(k) == 2}  # noqa: E731
+        rows_of = lambda t, a_: {k[2] for k in t if k[0] == a_ and len(k) == 3}  # noqa: E731
+        agents = {k[0] for k in ta} & {k[0] for k in tb}
+        off = [(a_, sorted(rows_of(ta, a_) ^ rows_of(tb, a_))[:3]) for a_ in sorted(agents) if steps_of(ta, a_) == steps_of(tb, a_) and rows_of(ta, a_) != rows_of(tb, a_)]
+        ctx.check(not off, f"stored-epochs-differ-{variant}", f"the stored truth rows of the paired runs ('{variant}') cover different epochs for agents that live through the same steps, e.g. {off[:2]}", wit, mon="truth_bitwise")
+        ctx.count("stored_row_sets_compared", len(agents))
     return steps_a >= 2 and len(common) > 0
 
 
@@ -340,7 +363,7 @@ def run(ctx):
         if variant in ("extra_target_static", "fewer_targets_static", "target_added_by_event", "target_removed_by_event", "exec_order_reverse", "exec_order_random") and rng.random() < 0.6:
             # agent-set and execution-order variants matter most where agents share more than the point-mass model
             net["truth_model"] = "special_perturbations"
-        if variant in ("id_reused_after_removal", "same_timed_burn_on_other_agent"):
+        if variant in ("id_reused_after_removal", "same_timed_burn_on_other_agent", "split_calls"):
             net["nsteps"] = max(net["nsteps"], 4)
         if variant == "filter_model":
             # agents built after the estimates (spacecraft-hosted sensors, agents added by events) are the ones that
